@@ -8,6 +8,7 @@ import (
 	"verifharness/internal/b2f"
 	"verifharness/internal/lzh"
 	"verifharness/internal/mbox"
+	"verifharness/internal/mboxfs"
 	"verifharness/internal/msgh"
 	"verifharness/internal/posrep"
 	"verifharness/internal/urlh"
@@ -15,6 +16,8 @@ import (
 
 var cmds = map[string]func([]string) int{
 	"mbox":          mbox.Main,
+	"mboxfs-c12":    mboxfs.MainConfine,
+	"mboxfs-c11":    mboxfs.MainCrash,
 	"lzh-run":       lzh.MainRun,
 	"lzh-judge":     lzh.MainJudge,
 	"lzh-hostile":   lzh.MainHostile,
